@@ -18,6 +18,9 @@ EXPLANATION = (
     'second one must remove the entry. Also: finish_stream clears the stream table and the reassembly cache under '
     'the same id; the fire-and-forget id is released by the sent-future callback; an invalid initial_request_n '
     'releases the id before raising. Not decided: emptiness of both tables at quiescence as a run-time observation.')
+EXPLANATION_ADDED = ('Closing one direction of a channel from the open state does not release the stream (unless the same event closes both).')
+EXPLANATION = EXPLANATION.replace(' Not decided', ' ' + EXPLANATION_ADDED + ' Not decided', 1) \
+    if ' Not decided' in EXPLANATION else EXPLANATION + ' ' + EXPLANATION_ADDED
 ASSUMPTIONS = COMMON_ASSUMPTIONS
 
 
